@@ -207,6 +207,29 @@ impl<'a, 'tcx> Mx<'a, 'tcx> {
                                 v.push(("promoted", J::Bool(true)));
                             }
                         }
+                        // `&T` constants (promoteds such as `&(0..16)`): dump the pointee bytes
+                        if let ty::Ref(_, inner, _) = t.kind() {
+                            if let Ok(rustc_middle::mir::ConstValue::Scalar(
+                                rustc_middle::mir::interpret::Scalar::Ptr(ptr, _),
+                            )) = c.const_.eval(self.tcx, self.env, rustc_span::DUMMY_SP)
+                            {
+                                let (prov, off) = ptr.into_raw_parts();
+                                if let Some(rustc_middle::mir::interpret::GlobalAlloc::Memory(a)) =
+                                    self.tcx.try_get_global_alloc(prov.alloc_id())
+                                {
+                                    let a = a.inner();
+                                    let start = off.bytes() as usize;
+                                    if a.len() >= start && a.len() - start <= 64 && a.provenance().ptrs().is_empty() {
+                                        let bytes = a.inspect_with_uninit_and_ptr_outside_interpreter(start..a.len());
+                                        v.push((
+                                            "pbytes",
+                                            J::Str(bytes.iter().map(|b| format!("{:02x}", b)).collect::<String>()),
+                                        ));
+                                        v.push(("pty", J::Str(ty_str(*inner))));
+                                    }
+                                }
+                            }
+                        }
                         let d: String = format!("{:?}", c.const_).chars().take(200).collect();
                         v.push(("dbg", J::Str(d)));
                     }
@@ -272,6 +295,8 @@ impl<'a, 'tcx> Mx<'a, 'tcx> {
                                 let adt = self.tcx.adt_def(*did);
                                 let var = adt.variant(*vi);
                                 v.push(("variant", J::Str(var.name.to_string())));
+                                v.push(("vidx", J::Int(vi.as_usize() as i128)));
+                                v.push(("is_enum", J::Bool(adt.is_enum())));
                                 v.push((
                                     "fields",
                                     J::Arr(var.fields.iter().map(|f| J::Str(f.name.to_string())).collect()),
